@@ -19,7 +19,15 @@ META = dict(
                 'form-widget rendering path is covered only through util::escape which it calls.'),
 )
 
-GEN = ['Gen_b64', 'Gen_util']
+GEN = {
+    'Gen_b64': dict(src='src/base64.cpp',
+                    arrays=[('encode_6_to_8', 'g_b64_alphabet')],
+                    functions=[('encode_8_to_6', 'g_b64_dec6'), ('encoded_size', 'g_b64_encoded_size'),
+                               ('decoded_size', 'g_b64_decoded_size')]),
+    'Gen_util': dict(src='src/util.cpp',
+                     functions=[('xdigit', 'g_xdigit')],
+                     transducers=[('escape', 'g_escape_step'), ('urlencode_impl', 'g_urlencode_step')]),
+}
 SPECIAL = b'<>&"\''
 
 
